@@ -1,6 +1,7 @@
 """Stub of xdsl.ir for symbolic execution: SSA values carry a *denotation* (`den`: the integer the
 value holds at run time, concrete or symbolic), operations are term constructors."""
 from pyvc.api import fresh_int
+from pyvc.stubhelpers import param_names
 
 
 class Attribute:
@@ -12,7 +13,19 @@ class TypeAttribute(Attribute):
 
 
 class ParametrizedAttribute(Attribute):
-    pass
+    def __init__(self, *parameters):
+        names = param_names(self)
+        k = 0
+        for p in parameters:
+            object.__setattr__(self, names[k], p)
+            k += 1
+
+    @property
+    def parameters(self):
+        return tuple(getattr(self, n) for n in param_names(self))
+
+    def __eq__(self, other):
+        return isinstance(other, ParametrizedAttribute) and type(self) is type(other) and self.parameters == other.parameters
 
 
 class Data(Attribute):
